@@ -21,7 +21,7 @@ RULE = ("fault enumeration: base scenarios (families mix, storm, deadline, churn
         "missing-facility configuration applicable to the method (epoll_pwait2 ENOSYS/EPERM, timerfd_create ENOSYS mid-run, ppoll ENOSYS mid-run, "
         "epoll_create1, eventfd2, eventfd) x EINTR injected at wait call k (quick k=1..3, thorough every k reached); every log replayed through the "
         "Lean machine and all monitors; plus method selection on random IV_EXCLUDE_POLL_METHOD strings x epoll availability against Ivy.L1.Select. "
-        "plus the enumerated kernel-timer family (vlib/loopgen.py ktimer_cases, 140 scenarios, 4 methods); plus C09's scenario programs in the three iv_event_raw transports (eventfd2 / old eventfd / pipe fallback) x four methods with C09's oracle. non-trivial = a run in which an injected fault actually fired or a non-default method was selected; distinct by log hash")
+        "plus enumerated bases (error-only descriptors, iv_quit inside a batch: vlib/loopgen.py erronly_cases/quit_cases; quick: a rotating subset) under the same method x facility x EINTR product; plus the enumerated kernel-timer family (vlib/loopgen.py ktimer_cases, 140 scenarios, 4 methods); plus C09's scenario programs in the three iv_event_raw transports (eventfd2 / old eventfd / pipe fallback) x four methods with C09's oracle. non-trivial = a run in which an injected fault actually fired or a non-default method was selected; distinct by log hash")
 
 
 def with_cfg(lines, method, flags, eintr=None):
@@ -100,9 +100,11 @@ def run(tier, seed, proof):
     # every second base
     fams = ["mix", "deadline", "storm", "deadline", "churn", "deadline", "lifecycle", "deadline", "tasks", "cycles"]
     cases = l1.corpus_cases(PROP)
-    for i in range(nb):
-        fam = fams[i % len(fams)]
-        base = loopgen.scenario(seed * 1000 + i, family=fam, method=None, faults=False)
+    bases = [(fams[i % len(fams)], loopgen.scenario(seed * 1000 + i, family=fams[i % len(fams)], method=None, faults=False)) for i in range(nb)]
+    # enumerated bases (method-independent bodies of vlib/loopgen.py erronly_cases / quit_cases): error-only descriptors, iv_quit in a batch
+    enum = [(n.split("-", 3)[0] + ":" + n.split("-", 3)[3], b) for n, b in loopgen.erronly_cases() + loopgen.quit_cases() if n.split("-")[1:3] == ["epoll", "timerfd"]]
+    bases += enum if tier != "quick" else [enum[(seed + j * 5) % len(enum)] for j in range(6)] + [e for e in enum if e[0].startswith("erronly")][:3]
+    for i, (fam, base) in enumerate(bases):
         # how many wait calls does the base run make?
         r0 = l1.run_case("base", with_cfg(base, None, []))
         nwaits = sum(1 for l in r0.log.splitlines() if l.startswith("WAIT "))
